@@ -65,6 +65,26 @@ def app6 (f : R → R → R → R → R → R → R → List R) (mu : R) : List 
 def meanToCart (fuel : Nat) (mu : R) (x : Elts) : Option (List R) :=
   (kpM2e fuel x.e x.M).map (fun E => app6 kpKeplToCart mu (app6 kpEccToKepl mu [x.a, x.e, x.i, x.raan, x.argp, E]))
 
+/-! ### The way IN: the orbit setter on a cartesian orbit
+
+`propagator.orbit = orb` runs `orb.copy(form="keplerian_mean")`; for an orbit held in cartesian form that is the chain
+cartesian → keplerian → keplerian_eccentric → keplerian_mean (`kpCartToKepl`, `kpKeplToEcc`, `kpEccToMean`: translated from
+forms.py on every run, like the way out).  `orbitPropagateCart` is the whole of `Orbit.propagate` on a cartesian orbit:
+cartesian in, cartesian out. -/
+
+/-- `orbit.copy(form="keplerian_mean")` of a cartesian orbit -/
+def cartToMean (mu : R) (c : List R) : List R :=
+  app6 kpEccToMean mu (app6 kpKeplToEcc mu (app6 kpCartToKepl mu c))
+
+def eltsOfList : List R → Option Elts
+  | [a, e, i, raan, argp, M] => some ⟨a, e, i, raan, argp, M⟩
+  | _ => none
+
+/-- `Orbit.propagate` on a cartesian orbit: setter (cartesian → mean), element update `stepf` (`keplerStep mu` / `j2Step mu`),
+`new.copy(form="cartesian")`; `none` = the coordinates are not six numbers, or the M2E loop did not exit -/
+def orbitPropagateCart (stepf : Elts → R → Elts) (fuel : Nat) (mu : R) (c : List R) (dt : R) : Option (List R) :=
+  (eltsOfList (cartToMean mu c)).bind (fun x => meanToCart fuel mu (stepf x dt))
+
 /-- the propagator object: `_orbit`, the mean elements stored by the `orbit` setter (`none` before the first use) -/
 structure PropObj where
   orbit : Option Elts
